@@ -128,6 +128,7 @@ type Contracts struct {
 	PureNames map[string]*FuncContract
 	Guarded  map[string]string // field key "T.f" -> mutex field "T.m"
 	Monotone map[string]bool   // "T.f": boolean field that never goes from true to false
+	Preserved map[string][]string // "T.f": field restored by every function before it returns
 	Callers  map[string][]string // callee name -> functions allowed to call it
 	CallersProps map[string][]string
 	Writers  map[string][]string // heap key -> functions allowed to write it directly
@@ -137,7 +138,7 @@ type Contracts struct {
 
 func ParseContractsFile(path string) (*Contracts, error) {
 	cs := &Contracts{Path: path, Funcs: map[string]*FuncContract{}, TypeInvs: map[string]*TypeInv{},
-		Specs: map[string]*SpecFn{}, Ghosts: map[string]*GhostVar{}, Regions: map[string]string{}, PureNames: map[string]*FuncContract{}, Guarded: map[string]string{}, Monotone: map[string]bool{}, Callers: map[string][]string{}, CallersProps: map[string][]string{}, Writers: map[string][]string{}, WritersProps: map[string][]string{}}
+		Specs: map[string]*SpecFn{}, Ghosts: map[string]*GhostVar{}, Regions: map[string]string{}, PureNames: map[string]*FuncContract{}, Guarded: map[string]string{}, Monotone: map[string]bool{}, Preserved: map[string][]string{}, Callers: map[string][]string{}, CallersProps: map[string][]string{}, Writers: map[string][]string{}, WritersProps: map[string][]string{}}
 	f, err := os.Open(path)
 	if err != nil {
 		if os.IsNotExist(err) {
@@ -354,6 +355,11 @@ func ParseContractsFile(path string) (*Contracts, error) {
 			cur, curType = nil, nil
 		case "monotone":
 			cs.Monotone[strings.TrimSpace(rest)] = true
+			cur, curType = nil, nil
+		case "preserved":
+			// preserved {props} T.f : every function leaves the field of every object as it found it (balanced updates)
+			props, r := parseProps(rest)
+			cs.Preserved[strings.TrimSpace(r)] = props
 			cur, curType = nil, nil
 		case "callers":
 			// callers {props} <callee> <func> <func> ...
